@@ -380,23 +380,23 @@ def r4(ck, F):
                 ck.bad("C11.R4", "%s: partial_cmp delegates to cmp" % nm, where(po.raw["sp"]), "partial_cmp is %s" % pr, fn=po.path)
 
 
-def r5(ck, F):
+def r5(ck, F, rid="C11.R5"):
     EF = E + "EnvFilter"
     adt = F.adts.get(EF)
-    if ck.anchor("C11.R5", "EnvFilter", adt):
+    if ck.anchor(rid, "EnvFilter", adt):
         ty = {f["name"]: f["ty"] for f in adt["variants"][0]["fields"]}.get("scope", "")
         if ty.startswith("thread_local::ThreadLocal<"):
-            ck.ok("C11.R5", "EnvFilter.scope is a ThreadLocal", detail=ty[:90])
+            ck.ok(rid, "EnvFilter.scope is a ThreadLocal", detail=ty[:90])
         else:
-            ck.bad("C11.R5", "EnvFilter.scope is a ThreadLocal", adt["span"], "scope has type %s: span-scoped levels would leak across threads" % ty)
+            ck.bad(rid, "EnvFilter.scope is a ThreadLocal", adt["span"], "scope has type %s: span-scoped levels would leak across threads" % ty)
     tabs = {}
     for m, act in (("on_enter", "push"), ("on_exit", "pop")):
         b = F.body("%s::%s" % (EF, m))
-        if not ck.anchor("C11.R5", "EnvFilter::" + m, b):
+        if not ck.anchor(rid, "EnvFilter::" + m, b):
             continue
         acts = [bb for bb, t in b.calls() if t["callee"].get("method") == act]
         if len(acts) != 1:
-            ck.bad("C11.R5", "EnvFilter::%s performs one %s" % (m, act), where(b.raw["sp"]), "%d %s calls" % (len(acts), act), fn=b.path)
+            ck.bad(rid, "EnvFilter::%s performs one %s" % (m, act), where(b.raw["sp"]), "%d %s calls" % (len(acts), act), fn=b.path)
             continue
         g, _ = guards_of(b, acts[0])
         pred = []
@@ -424,19 +424,19 @@ def r5(ck, F):
         pred = pred + (["EXTRA %s" % (extra,)] if extra else [])
         tabs[m] = pred
         if pred and not extra:
-            ck.ok("C11.R5", "EnvFilter::%s: %s only for spans with a stored matcher" % (m, act), fn=b.path, detail=pred)
+            ck.ok(rid, "EnvFilter::%s: %s only for spans with a stored matcher" % (m, act), fn=b.path, detail=pred)
         elif extra:
-            ck.bad("C11.R5", "EnvFilter::%s: %s exactly for spans with a stored matcher" % (m, act), where(b.raw["sp"]),
+            ck.bad(rid, "EnvFilter::%s: %s exactly for spans with a stored matcher" % (m, act), where(b.raw["sp"]),
                    "the %s is additionally conditioned on %s: enter and exit no longer push/pop for the same spans, so the per-thread scope stack gets out of step" % (act, extra), fn=b.path)
         else:
-            ck.bad("C11.R5", "EnvFilter::%s: %s only for spans with a stored matcher" % (m, act), where(b.raw["sp"]), "guards %s" % sorted(g), fn=b.path)
+            ck.bad(rid, "EnvFilter::%s: %s only for spans with a stored matcher" % (m, act), where(b.raw["sp"]), "guards %s" % sorted(g), fn=b.path)
     if len(tabs) == 2:
         if tabs["on_enter"] == tabs["on_exit"]:
-            ck.ok("C11.R5", "enter and exit use the same predicate (balanced scope stack)")
+            ck.ok(rid, "enter and exit use the same predicate (balanced scope stack)")
         else:
-            ck.bad("C11.R5", "enter and exit use the same predicate (balanced scope stack)", EF, "enter: %s exit: %s" % (tabs["on_enter"], tabs["on_exit"]))
+            ck.bad(rid, "enter and exit use the same predicate (balanced scope stack)", EF, "enter: %s exit: %s" % (tabs["on_enter"], tabs["on_exit"]))
     oc = F.body(EF + "::on_close")
-    if ck.anchor("C11.R5", "EnvFilter::on_close", oc):
+    if ck.anchor(rid, "EnvFilter::on_close", oc):
         rem = [(bb, t) for bb, t in oc.calls() if t["callee"].get("method") == "remove"]
         # a stored matcher is removed whenever there is one: the only thing that may skip the removal is "nothing stored"
         # (the cares_about_span fast path), with that polarity, or a poisoned lock
@@ -449,22 +449,22 @@ def r5(ck, F):
                 if "contains_key(" in t and (v == 0 or v is False):
                     wrongp = True
         if rem and not wrongp:
-            ck.ok("C11.R5", "on_close removes the span's matcher", fn=oc.path)
+            ck.ok(rid, "on_close removes the span's matcher", fn=oc.path)
         elif wrongp:
-            ck.bad("C11.R5", "on_close removes the span's matcher", where(oc.raw["sp"]), "the removal runs only for spans *without* a stored matcher: every closed span leaves its matcher behind", fn=oc.path)
+            ck.bad(rid, "on_close removes the span's matcher", where(oc.raw["sp"]), "the removal runs only for spans *without* a stored matcher: every closed span leaves its matcher behind", fn=oc.path)
         else:
-            ck.bad("C11.R5", "on_close removes the span's matcher", where(oc.raw["sp"]), "no remove call", fn=oc.path)
+            ck.bad(rid, "on_close removes the span's matcher", where(oc.raw["sp"]), "no remove call", fn=oc.path)
     ns = F.body(EF + "::on_new_span")
-    if ck.anchor("C11.R5", "EnvFilter::on_new_span", ns):
+    if ck.anchor(rid, "EnvFilter::on_new_span", ns):
         ins = [bb for bb, t in ns.calls() if t["callee"].get("method") == "insert"]
         ok = len(ins) == 1
         if ok:
             g, _ = guards_of(ns, ins[0])
             ok = any(("by_cs" in t or "get(" in t) and v != 0 for t, v in g) and not any(("by_cs" in t and "get(" in t) and (v == 0 or v is False) for t, v in g)
         if ok:
-            ck.ok("C11.R5", "on_new_span stores a matcher iff the callsite has span-scoped directives", fn=ns.path)
+            ck.ok(rid, "on_new_span stores a matcher iff the callsite has span-scoped directives", fn=ns.path)
         else:
-            ck.bad("C11.R5", "on_new_span stores a matcher iff the callsite has span-scoped directives", where(ns.raw["sp"]), "insert not guarded by the by_cs lookup", fn=ns.path)
+            ck.bad(rid, "on_new_span stores a matcher iff the callsite has span-scoped directives", where(ns.raw["sp"]), "insert not guarded by the by_cs lookup", fn=ns.path)
 
 
 def r6(ck, F):
